@@ -343,6 +343,19 @@ def run_s2c(prop, tier, seed, opts):
                 if len(mres) != nmut or any(r["pass"] for r in mres):
                     raise V.Broken("binding self-test: a corrupted expectation was accepted in stage %s" % st["name"])
                 stage_info[-1]["selftest_rejected"] = len(mres)
+        # the specification sees each named defect class: with a deviation switched on TLC must find the counterexample
+        # (vacuity guard); design-only modules are checked as they stand
+        if opts.get("selftest") or tier == "thorough":
+            for d in spec.get("design", []):
+                res = V.run_tlc(scratch, d["module"], d["cfg"], workers=4, timeout=600, sub="design-" + d["cfg"])
+                if "is violated" in res["out"] or "Model checking completed" not in res["out"]:
+                    raise V.Broken("design module %s / %s does not hold" % (d["module"], d["cfg"]))
+                stage_info.append(dict(stage="design:" + d["cfg"], module=d["module"], kind="model only", states=res["states"], distinct=res["distinct"]))
+            for d in spec.get("deviations", []):
+                res = V.run_tlc(scratch, d["module"], d["cfg"], workers=4, timeout=600, sub="dev-" + d["cfg"])
+                if "is violated" not in res["out"]:
+                    raise V.Broken("deviation config %s did not produce a counterexample" % d["cfg"])
+                stage_info.append(dict(stage="deviation:" + d["cfg"], module=d["module"], kind="must violate " + d.get("inv", "an invariant"), violated=True))
         # triage
         unexplained = []
         for (r, line, cmd) in all_failing:
